@@ -108,12 +108,16 @@ func (res *Resource) unpackZipArchive() error {
 
 	// Defer clean up of directories.
 	defer func() {
+		// Cleanup the destination in case of an error. An existing destination
+		// is taken to be correctly unpacked, so it must never be seen partially
+		// deleted: move it back to the tmp dir in one step and delete it there.
+		if err != nil {
+			if os.Rename(destDir, tmpDir) != nil {
+				_ = os.RemoveAll(destDir)
+			}
+		}
 		// Always clean up the tmp dir.
 		_ = os.RemoveAll(tmpDir)
-		// Cleanup the destination in case of an error.
-		if err != nil {
-			_ = os.RemoveAll(destDir)
-		}
 	}()
 
 	// Open the archive for reading.
